@@ -141,6 +141,7 @@ PROPS["C03"] = {
     "assumptions": COMMON_ASSUMPTIONS,
 }
 PROPS["C06"] = {
+    "modules": ["C06", "C06b"],
     "families": ["OF"], "ops": "api,apix,enc,prog,embed", "gen_deps": [],
     "rule": ENC_RULE, "trivial_outputs": ["panic", "err"],
     "level_text": "Theorems: fill_exact / fill_length — the make(Len())+copy idiom returns exactly Len() bytes and, when the pieces fit, their concatenation plus zero padding (the general lemma every container theorem instantiates); all 30 match-payload kinds: size = encoding length and neither call modifies the value; match field and match: encoding length = reported size for any content, match size multiple of 8. Oracle: reported size before and after encoding = bytes produced, on every API-built value of every kind. Container theorems for actions / instructions / messages are pending (decided by oracle + correspondence).",
@@ -170,6 +171,18 @@ PROPS["C08"] = {
     "level_text": "Kernel-checked totality theorems for EVERY protocol-package decoder of the model: for any receiver and any well-formed slice (len <= cap) the result is a value or an error, never a panic and never a non-terminating loop — leaf decoders (VLAN, ARP, ICMP, TCP, UDP, IGMPv1/2, fragment, option, routing, util.Buffer), loops (hop-by-hop options, DHCP option list, IGMPv3 query/record/report) via the goLoop progress lemmas, composites (IPv4, IPv6 extension chain, Ethernet, DHCP, LLDP with an explicit non-nil-receiver hypothesis) from their parts; the regenerated size functions (HopByHopHeader.Len, RoutingHeader.Len, Option.Len, IGMPv3*.Len translated from the Go source on every run) are shown to be 8*(HEL+1) >= 8 / Length+2 >= 2 without 8-bit wrap. Every loop's fuel is linear in the input length. Oracle on the implementation: no decoder call of the generated byte strings panics or spins.",
     "level_note": OF_NOTE + " The theorems are about the code after the decoder repairs (fix commits 398adf7, 4326582, 43786dd, 85ab893, 2ae69ca, 00a04ac). Time/memory proportionality is proved as 'fuel linear in the input'; the model has no finer cost notion.",
     "assumptions": COMMON_ASSUMPTIONS + ["slices are well formed (len <= cap)"],
+}
+
+PROPS["C09"] = {
+    "families": ["OF"], "ops": "pk,rtrip,rtx,dec", "gen_deps": ["protocol."],
+    "rule": "pk: packet headers written by an independent encoder (harness/cmd/ofvrun/of_switch.go, from the RFC layouts): VLAN tag over all (pcp, dei) and boundary/random vids, "
+            "TCP data offset x 6 code bits, IPv6 fragment offset/M, IGMPv3 S/QRV, IGMPv1/2, IGMPv3 reports with group records and aux words, routing and hop-by-hop headers whose options fill "
+            "them exactly, ICMP, ARP, whole Ethernet frames (tagged/untagged; IPv4/ICMP with all sub-byte fields, IPv4/UDP, ARP, IPv6 with hop-by-hop / fragment chains and ICMPv6 / UDP, "
+            "unknown ethertype), each with exact and spare capacity. Non-trivial = the decoder returned a value.",
+    "trivial_outputs": ["err", "panic", "spin", "-"],
+    "level_text": "Kernel-checked theorems (Props/C09.lean): lane theorems — for ALL in-range field values unpack(pack) returns each field (VLAN PCP/DEI/VID, IPv4 version/IHL, DSCP/ECN, flags/fragment offset, IPv6 version/class/flow label across its words, TCP data offset and code bits, fragment offset/M flag, IGMPv3 S/QRV) by arithmetic over UIntN, not enumeration; round-trip theorems for the leaf header kinds (decode(encode v ++ tail) = v, size = bytes); demux theorems: the payload decoder is chosen by the ethertype after an optional tag, the IPv4 protocol byte, the IPv6 next-header chain. Oracle on the implementation: every value an independent encoder wrote is found in the decoded header, the reported size equals the bytes consumed, the re-encoding reproduces the input.",
+    "level_note": OF_NOTE + " TCP.Code is modelled as the library defines it (6 bits). DHCP / LLDP use Read/Write methods rather than Marshal/Unmarshal and are covered by the correspondence run (prog op) and C08 only.",
+    "assumptions": COMMON_ASSUMPTIONS + ["RFC 791/2460/793/3376/826, IEEE 802.1Q layouts transcribed from memory in the independent encoder"],
 }
 
 NOT_YET = {}
